@@ -23,7 +23,7 @@
    also stated directly on the state (EmitAtEnd, EmitOnce, NoSpuriousError,
    DeliveredIsEmitted).
 
-   Defects = {} is the intended algorithm.  The pinned parser deviates in six
+   Defects = {} is the intended algorithm.  The pinned code deviates in seven
    places, each a generator of counterexample histories (never an oracle):
      "linecrlf"   looks for the CRLF that ends the first line only in the
                   bytes of the current read, not in the carried-over buffer:
@@ -41,12 +41,21 @@
                   connection is never reported (nothing listens to the close)
      "emptyhdr"   an empty header block followed by body bytes is recognised
                   only if a read ends exactly behind it (then the parser
-                  crashes on the first body bytes), otherwise never          *)
+                  crashes on the first body bytes), otherwise never
+     "tecase"     (server) HTTP._on_read decides by itself whether a body is
+                  to be awaited and compares the Transfer-Encoding value with
+                  "chunked" case-sensitively (the parser lower-cases it): a
+                  request with `Transfer-Encoding: Chunked` is dispatched as
+                  soon as its header block is complete, with the part of the
+                  body that happens to have arrived
+   (the first six were repaired in the repository while this check was built;
+   the framing decision of the intended algorithm is a function of the
+   *normalised* header fields: `body` of the layout)                         *)
 EXTENDS HttpFramingOps, Naturals, FiniteSets, TLC
 
 CONSTANTS Sides,     \* subset of {"server", "client"}: requests / responses are parsed
           Plans,     \* set of enumeration plans (records, see below); a behaviour follows one of them
-          Defects    \* subset of {"linecrlf", "lastchunk", "nobody", "nobody304", "untilclose", "emptyhdr"}
+          Defects    \* subset of {"linecrlf", "lastchunk", "nobody", "nobody304", "untilclose", "emptyhdr", "tecase"}
 
 (* A plan bounds what the environment does on one connection:
      [name, pool, maxmsgs, maxcuts, mode, keep]
@@ -63,7 +72,7 @@ CONSTANTS Sides,     \* subset of {"server", "client"}: requests / responses are
    keep     keep every emitted line in `out` (small plans only)               *)
 NoBound == -1
 NoDefects == {}
-AllDefects == {"linecrlf", "lastchunk", "nobody", "nobody304", "untilclose", "emptyhdr"}
+AllDefects == {"linecrlf", "lastchunk", "nobody", "nobody304", "untilclose", "emptyhdr", "tecase"}
 
 -----------------------------------------------------------------------------
 (* the grammar.  Tags tell the harness which bytes realise the layout
@@ -95,32 +104,51 @@ C2  == [sz |-> 2, ext |-> 0]
 BodyChunks   == << <<>>, <<>>, <<>>, <<C3>>, <<C3x, C2>>, <<C3>>, <<C3x, C2>>, <<>>, <<>> >>
 BodyTrailers == << <<>>, <<>>, <<>>, <<>>, <<>>, <<8>>, <<8, 11>>, <<>>, <<>> >>      \* X-Sum: 1 / X-Sum: 1, X-Other: ab
 
-Mk(kind, li, hi, bi, vi, ltag, htag, linelen, hdrlens, status, ka) ==
-  [kind |-> kind, li |-> li, hi |-> hi, bi |-> bi, vi |-> vi,
-   ltag |-> ltag, htag |-> htag, btag |-> BodyTag[bi], ver |-> IF vi = 1 THEN 10 ELSE 11,
-   status |-> status, ka |-> ka,
-   line |-> linelen, hdrs |-> hdrlens \o BodyHdr[bi],
+(* spellings that RFC 7230 makes equivalent (field names and the transfer-coding
+   / connection-option tokens are case-insensitive, optional whitespace around a
+   field value): they do not change `body` / `ka` - the normalised header - but
+   the bytes, and "ows" the lengths of the framing and Connection lines (+2)  *)
+SpTag == <<"canon",    \* Transfer-Encoding: chunked    Content-Length: 5     Connection: keep-alive
+           "lower",    \* transfer-encoding: chunked    content-length: 5     connection: keep-alive   host: / server:
+           "upper",    \* TRANSFER-ENCODING: CHUNKED    CONTENT-LENGTH: 5     CONNECTION: KEEP-ALIVE   HOST: / SERVER:
+           "mixed",    \* Transfer-Encoding: Chunked    Content-Length: 5     Connection: Keep-Alive
+           "ows">>     \* Transfer-Encoding: <HT>chunked<SP>   Content-Length: <HT>5<SP>   Connection: <HT>keep-alive<SP>
+Ows(sp) == IF sp = 5 THEN 2 ELSE 0
+TeLower(sp) == sp \in {1, 2, 5}        \* the transfer-coding token is spelled "chunked"
+BodyHdrS(bi, sp) == IF BodyHdr[bi] = <<>> THEN <<>> ELSE <<BodyHdr[bi][1] + Ows(sp)>>
+
+Mk(kind, li, hi, bi, vi, sp, ltag, htag, linelen, hdrlens, status, ka) ==
+  [kind |-> kind, li |-> li, hi |-> hi, bi |-> bi, vi |-> vi, sp |-> sp,
+   ltag |-> ltag, htag |-> htag, btag |-> BodyTag[bi], stag |-> SpTag[sp], ver |-> IF vi = 1 THEN 10 ELSE 11,
+   status |-> status, ka |-> ka, telower |-> TeLower(sp),
+   line |-> linelen, hdrs |-> hdrlens \o BodyHdrS(bi, sp),
    body |-> BodyKind[bi], cl |-> BodyCl[bi], chunks |-> BodyChunks[bi], trailers |-> BodyTrailers[bi]]
 
 (* requests: bodies 1..7; HTTP/1.1 needs Host; the connection is kept alive by
    HTTP/1.1 or by Connection: keep-alive                                      *)
-MkReq(li, hi, bi, vi) ==
-  Mk("req", li, hi, bi, vi, ReqLineTag[li], ReqHdrTag[hi], ReqLineLen[li], ReqHdrLens[hi], 0, vi = 2 \/ hi = 5)
-ReqAll == [i \in 1..(4 * 5 * 7 * 2) |->
-             LET j == i - 1 IN MkReq((j \div 70) + 1, ((j \div 14) % 5) + 1, ((j \div 2) % 7) + 1, (j % 2) + 1)]
-ValidReq(L) == L.vi = 2 => L.hi # 1
+MkReq(li, hi, bi, vi, sp) ==
+  Mk("req", li, hi, bi, vi, sp, ReqLineTag[li], ReqHdrTag[hi], ReqLineLen[li],
+     IF hi = 5 THEN <<17, 22 + Ows(sp)>> ELSE ReqHdrLens[hi], 0, vi = 2 \/ hi = 5)
+ReqAll == [i \in 1..(5 * 4 * 5 * 7 * 2) |->
+             LET j == (i - 1) % 280
+             IN MkReq((j \div 70) + 1, ((j \div 14) % 5) + 1, ((j \div 2) % 7) + 1, (j % 2) + 1, ((i - 1) \div 280) + 1)]
+(* the other spellings only where a header the code consults is present, on the short first line *)
+ValidReq(L) == /\ L.vi = 2 => L.hi # 1
+               /\ L.sp > 1 => (L.li = 1 /\ (L.bi >= 2 \/ L.hi = 5))
 ReqGrammar == SelectSeq(ReqAll, ValidReq)
 
 (* responses: 204/304 have no body; the others have one of bodies 2..9 (a
    chunked body only towards HTTP/1.1); a read-until-close body ends the
    connection                                                                 *)
-MkResp(li, hi, bi, vi) ==
-  Mk("resp", li, hi, bi, vi, RespLineTag[li], RespHdrTag[hi], RespLineLen[li], RespHdrLens[hi], RespStatus[li],
+MkResp(li, hi, bi, vi, sp) ==
+  Mk("resp", li, hi, bi, vi, sp, RespLineTag[li], RespHdrTag[hi], RespLineLen[li], RespHdrLens[hi], RespStatus[li],
      BodyKind[bi] # "close")
-RespAll == [i \in 1..(4 * 4 * 9 * 2) |->
-              LET j == i - 1 IN MkResp((j \div 72) + 1, ((j \div 18) % 4) + 1, ((j \div 2) % 9) + 1, (j % 2) + 1)]
+RespAll == [i \in 1..(5 * 4 * 4 * 9 * 2) |->
+              LET j == (i - 1) % 288
+              IN MkResp((j \div 72) + 1, ((j \div 18) % 4) + 1, ((j \div 2) % 9) + 1, (j % 2) + 1, ((i - 1) \div 288) + 1)]
 ValidResp(L) == /\ (L.li \in {3, 4}) <=> (L.bi = 1)
                 /\ (L.body = "chunked") => (L.vi = 2)
+                /\ L.sp > 1 => (L.li = 1 /\ L.bi \in 2..7)
 RespGrammar == SelectSeq(RespAll, ValidResp)
 
 AllSides == {"server", "client"}
@@ -130,22 +158,30 @@ ASSUME PrintT(<<"GRAMMAR", GG>>)       \* the harness reads the grammar from her
 (* the layouts whose every cut sequence is replayed on the real code: every
    body (both versions) with the other dimensions rotating, every first line
    x header block without body, the HTTP/1.0 specials                        *)
-SelReq(l) == \/ (l.li = (l.bi % 4) + 1 /\ l.hi = 2 + (l.bi % 3))
-             \/ (l.bi = 1 /\ l.vi = 2)
-             \/ (l.vi = 1 /\ l.hi \in {1, 5} /\ l.li \in {1, 3} /\ l.bi \in {1, 3})
-SelResp(l) == \/ (l.li = 1 /\ l.hi = 1 + (l.bi % 4) /\ (l.vi = 2 \/ l.body = "close"))
-              \/ (l.bi = 3 /\ l.vi = 2 /\ l.li \in {1, 2})
-              \/ (l.li \in {3, 4} /\ l.hi \in {1, 2, 4} /\ (l.vi = 2 \/ l.hi = 2))
-              \/ (l.hi = 1 /\ l.bi \in {8, 9} /\ l.li = 2)
+SelReq(l) == \/ (l.sp = 1 /\ l.li = (l.bi % 4) + 1 /\ l.hi = 2 + (l.bi % 3))
+             \/ (l.sp = 1 /\ l.bi = 1 /\ l.vi = 2)
+             \/ (l.sp = 1 /\ l.vi = 1 /\ l.hi \in {1, 5} /\ l.li \in {1, 3} /\ l.bi \in {1, 3})
+             \/ (l.sp > 1 /\ l.vi = 2 /\ l.hi = 2 /\ l.bi = 5)                \* every spelling of Transfer-Encoding: chunked [3x, 2]
+             \/ (l.sp \in {3, 5} /\ l.vi = 2 /\ l.hi = 2 /\ l.bi = 3)        \* CONTENT-LENGTH / optional whitespace
+             \/ (l.sp \in {3, 4} /\ l.vi = 1 /\ l.hi = 5 /\ l.bi = 3)        \* HTTP/1.0 CONNECTION: KEEP-ALIVE / Connection: Keep-Alive
+SelResp(l) == \/ (l.sp = 1 /\ l.li = 1 /\ l.hi = 1 + (l.bi % 4) /\ (l.vi = 2 \/ l.body = "close"))
+              \/ (l.sp = 1 /\ l.bi = 3 /\ l.vi = 2 /\ l.li \in {1, 2})
+              \/ (l.sp = 1 /\ l.li \in {3, 4} /\ l.hi \in {1, 2, 4} /\ (l.vi = 2 \/ l.hi = 2))
+              \/ (l.sp = 1 /\ l.hi = 1 /\ l.bi \in {8, 9} /\ l.li = 2)
+              \/ (l.sp > 1 /\ l.vi = 2 /\ l.hi = 2 /\ l.bi = 5)                \* every spelling of chunked [3x, 2]
+              \/ (l.sp = 5 /\ l.vi = 2 /\ l.hi = 2 /\ l.bi = 3)               \* Content-Length with optional whitespace
 (* a handful for the sequences and the deeper cut enumerations *)
-FewReq(l) == \/ (l.vi = 2 /\ l.li = 1 /\ l.hi = 2 /\ l.bi \in {1, 3, 5})       \* GET none / cl5 / ch32x
-             \/ (l.vi = 2 /\ l.li = 4 /\ l.hi = 4 /\ l.bi = 7)                   \* long, continuation, ch32xt
-             \/ (l.vi = 1 /\ l.li = 3 /\ l.hi = 5 /\ l.bi \in {1, 2})            \* 1.0 keep-alive none / cl0
-FewResp(l) == \/ (l.vi = 2 /\ l.li = 1 /\ l.hi = 2 /\ l.bi \in {2, 3, 5, 8})    \* 200 cl0 / cl5 / ch32x / close5
-              \/ (l.vi = 2 /\ l.li = 3 /\ l.hi \in {1, 2})                       \* 204 without / with header fields
-              \/ (l.vi = 2 /\ l.li = 2 /\ l.hi = 4 /\ l.bi = 7)                  \* 404 continuation ch32xt
-TwoOf(l) == l.vi = 2 /\ l.li = 1 /\ l.hi = 2 /\ l.bi \in {3, 6}                 \* cl5 / ch3t
-OneOf(l) == l.vi = 2 /\ l.li = 1 /\ l.hi = 2 /\ l.bi = 6                        \* ch3t
+FewReq(l) == \/ (l.sp = 1 /\ l.vi = 2 /\ l.li = 1 /\ l.hi = 2 /\ l.bi \in {1, 3, 5})   \* GET none / cl5 / ch32x
+             \/ (l.sp = 1 /\ l.vi = 2 /\ l.li = 4 /\ l.hi = 4 /\ l.bi = 7)               \* long, continuation, ch32xt
+             \/ (l.sp = 1 /\ l.vi = 1 /\ l.li = 3 /\ l.hi = 5 /\ l.bi \in {1, 2})        \* 1.0 keep-alive none / cl0
+             \/ (l.sp = 4 /\ l.vi = 2 /\ l.hi = 2 /\ l.bi = 5)                          \* Transfer-Encoding: Chunked
+             \/ (l.sp = 3 /\ l.vi = 1 /\ l.hi = 5 /\ l.bi = 3)                          \* 1.0 CONNECTION: KEEP-ALIVE, CONTENT-LENGTH: 5
+FewResp(l) == \/ (l.sp = 1 /\ l.vi = 2 /\ l.li = 1 /\ l.hi = 2 /\ l.bi \in {2, 3, 5, 8}) \* 200 cl0 / cl5 / ch32x / close5
+              \/ (l.sp = 1 /\ l.vi = 2 /\ l.li = 3 /\ l.hi \in {1, 2})                   \* 204 without / with header fields
+              \/ (l.sp = 1 /\ l.vi = 2 /\ l.li = 2 /\ l.hi = 4 /\ l.bi = 7)              \* 404 continuation ch32xt
+              \/ (l.sp = 3 /\ l.vi = 2 /\ l.hi = 2 /\ l.bi = 5)                         \* TRANSFER-ENCODING: CHUNKED
+TwoOf(l) == l.sp = 1 /\ l.vi = 2 /\ l.li = 1 /\ l.hi = 2 /\ l.bi \in {3, 6}             \* cl5 / ch3t
+OneOf(l) == l.sp = 1 /\ l.vi = 2 /\ l.li = 1 /\ l.hi = 2 /\ l.bi = 6                    \* ch3t
 InPool(name, s, l) ==
   CASE name = "Everything" -> TRUE
     [] name = "Selected" -> IF s = "server" THEN SelReq(l) ELSE SelResp(l)
@@ -294,7 +330,9 @@ Exec(i, p, a, b) ==
          ELSE IF l.body = "none" THEN R("done", TRUE, 0)
          ELSE IF l.body = "cl" THEN (IF b >= GTot[i] THEN R("done", TRUE, 0) ELSE R("body", FALSE, 0))
          ELSE IF l.body = "chunked"
-              THEN (IF b >= (IF "lastchunk" \in Defects THEN GLse[i] ELSE GTot[i])
+              THEN (IF "tecase" \in Defects /\ side = "server" /\ ~l.telower
+                    THEN R("done", TRUE, 0)                      \* not recognised as chunked: nothing to wait for
+                    ELSE IF b >= (IF "lastchunk" \in Defects THEN GLse[i] ELSE GTot[i])
                     THEN R("done", TRUE, 0) ELSE R("body", FALSE, 0))
          ELSE R("body", FALSE, 0)                                \* "close": ends with PeerClose
     [] OTHER -> R(p, FALSE, 0)                                   \* "done" (left-over bytes), "stuck"
